@@ -20,9 +20,12 @@ Lines == {L(o, "", "", 0, 0, "") : o \in {"HALT", "MSINK"}}
          \cup {L(o, sel, "lbl", 0, 0, "") : o \in {"UP", "NEXT", "PREVIOUS"}, sel \in Selectors \ {"*"}}
 VARIABLE src
 Init == src = <<>>
-\* batch lines must come at the end of a node's code (instructions.texi): once one is written only batch lines follow
+\* batch lines form ONE group per source (instructions.texi puts it at the end of a node's code; ordinary instructions after
+\* it assemble too - a second group would repeat the first, the menu processor is not reset): once a group is closed by an
+\* ordinary line no further batch line is written
+Closed == \E i \in 1..(Len(src) - 1) : IsBatch(src[i]) /\ ~IsBatch(src[i + 1])
 Next == Len(src) < MaxLines /\ \E l \in Lines :
-          /\ (src # <<>> /\ IsBatch(src[Len(src)]) => IsBatch(l))
+          /\ (Closed => ~IsBatch(l))
           /\ src' = Append(src, l)
 Spec == Init /\ [][Next]_src
 
